@@ -103,13 +103,24 @@ func (c18) Gen(rng *rand.Rand, tier string, idx int) Case {
 		c.Stat = append(c.Stat, "exotic-row-values", "exotic-"+kind)
 		return c
 	}
-	if idx%97 == 5 {
+	if idx%97 == 5 || idx%97 == 37 || idx%97 == 69 {
 		// Execute that fails AFTER the stream was built (the WHERE text passes the SQL parser but does not compile as a
 		// filter): whatever Execute started must be torn down by the Stop that follows
 		c.Cfg = [][]string{{"async"}, {"sync"}, {"qcap", "1"}, {"calls", "0"}, {"adds", "0"}, {"strat", "drop"},
 			{"where", hx([]string{"a matches '['", "a > 1 AND", "(a > 1"}[rng.Intn(3)])}}
 		c.Ops = [][]string{{"failexec"}}
 		c.Stat = append(c.Stat, "execute-fails-after-build")
+		if idx%97 != 5 {
+			// … and the caller corrects the statement and calls Execute again on the same instance (Execute's error says a
+			// failed call may be repeated); idx%97 == 69: an event-time window statement (window and watermark goroutines
+			// exist from construction)
+			c.Cfg = append(c.Cfg, []string{"retry", "1"})
+			c.Stat = append(c.Stat, "execute-retried-after-failure")
+			if idx%97 == 69 {
+				c.Cfg = append(c.Cfg, []string{"stmt", "win"})
+				c.Stat = append(c.Stat, "execute-retried-window-statement")
+			}
+		}
 		return c
 	}
 	if (tier == "thorough" && idx%10 == 9) || (tier != "thorough" && idx%13 == 12) {
@@ -746,9 +757,17 @@ func c18failExec(c Case) [][]string {
 	}
 	base := runtime.NumGoroutine()
 	ssql := streamsql.New(presetOpt(), streamsql.WithDiscardLog())
-	err := ssql.Execute("SELECT id FROM stream WHERE " + where)
-	ssql.Stop()
+	head, tail := "SELECT id FROM stream", ""
+	if v := c19cfgGet(c, "stmt"); len(v) > 0 && v[0] == "win" {
+		head, tail = "SELECT k, count(*) AS c FROM stream", " GROUP BY k, TumblingWindow('1s') WITH (TIMESTAMP='ts', TIMEUNIT='ms')"
+	}
+	err := ssql.Execute(head + " WHERE " + where + tail)
 	out := [][]string{{"execute", map[bool]string{true: "error", false: "ok"}[err != nil]}}
+	if v := c19cfgGet(c, "retry"); len(v) > 0 && v[0] == "1" {
+		err2 := ssql.Execute(head + tail)
+		out = append(out, []string{"retry", map[bool]string{true: "error", false: "ok"}[err2 != nil]})
+	}
+	ssql.Stop()
 	deadline := time.Now().Add(8 * time.Second)
 	for runtime.NumGoroutine() > base && time.Now().Before(deadline) {
 		time.Sleep(time.Millisecond)
